@@ -245,6 +245,6 @@ def stages(tier):
     q = tier == "quick"
     return [
         EnumStage("units", unit_cases, shards=8 if q else 16, scope="all width sequences (<=4 fields, sum<=8) x 256 unit values x 2 endians x {uint8,int8,enum} x 2 readers; all (<=3 fields, sum<=16) x 96 values x 2 endians x {uint16,int16}"),
-        HypStage("random", bits_case, examples=500 if q else 5000, shards=6 if q else 16),
+        HypStage("random", bits_case, examples=500 if q else 12000, shards=6 if q else 16),
         HypStage("straddle", straddle_case, examples=300 if q else 3000, shards=2 if q else 4),
     ]
